@@ -20,9 +20,10 @@ func init() {
 			"(5) the sweeper marks a transaction stale when age > ttl or idle > idle-ttl (both comparisons present, right operands, right polarity). " +
 			"Added after blind round 4: the lock pairing rule of C07 (every acquisition released or deferred before every reachable return), which covers TransactionImpl.mu on the early-return paths of the transaction's methods. " +
 			"Added after blind round 7: a connection's tracking entry is deleted only when its set is empty (or by the connection sweep itself). " +
-			"Added after blind round 8: the registry's ticker goroutine runs CleanupStaleTransactions on every tick.",
+			"Added after blind round 8: the registry's ticker goroutine runs CleanupStaleTransactions on every tick. " +
+			"Added after blind round 9: the default registry's idle limit is below its lifetime limit, the constants followed through a delegating constructor.",
 		NotDecided: "timing (when the sweeper runs, the 10 s / 30 s constants), liveness for all call sequences, the begin goroutine's error returns that never reach the caller (reported as info).",
-		Rules:      []func(*Ctx, *Reporter){ruleTxFinishOnce, ruleTxRelease, ruleTxLockWriters, ruleTxOrphanRemoval, ruleTxBeginHandoff, ruleTxStale, ruleLockReleasedOnEveryExit, ruleConnTrackingDroppedOnlyWhenEmpty, ruleSweeperSweepsEveryTick},
+		Rules:      []func(*Ctx, *Reporter){ruleTxFinishOnce, ruleTxRelease, ruleTxLockWriters, ruleTxOrphanRemoval, ruleTxBeginHandoff, ruleTxStale, ruleLockReleasedOnEveryExit, ruleConnTrackingDroppedOnlyWhenEmpty, ruleSweeperSweepsEveryTick, ruleDefaultRegistryLimits},
 	})
 	register(&PropertyDef{
 		ID: "C04",
